@@ -820,13 +820,28 @@ class Exec(Executor):
         if k.attr and isinstance(recv, SV):
             assert fi.cls is not None
             res: Any = SV(td, self.types.attr_symbol(fi.cls, fi.name, td)(recv.z))
+        elif k.pure and isinstance(td, smt.TTupleT):
+            zs = [v.z for v in env.values() if isinstance(v, SV)]
+            items = []
+            for idx, itd in enumerate(td.items):
+                f = self.pure_symbol(f"{k.key}#{idx}", [z.sort() for z in zs], itd.sort)
+                iv = SV(itd, f(*zs))
+                post.assume(*self.type_facts(iv.z, itd, post))
+                items.append(iv)
+            res = PyTuple(items)
         elif k.pure:
             zs = [v.z for v in env.values() if isinstance(v, SV)]
             f = k.symbol if k.symbol is not None else self.pure_symbol(k.key, [z.sort() for z in zs], td.sort)
             res = SV(td, f(*zs))
         else:
             res = td.fresh("r_" + fi.name)
-            res.fresh = k.fresh_result
+            if isinstance(res, PyTuple):
+                for iv in res.items:
+                    post.assume(*self.type_facts(iv.z, iv.td, post))
+                    if isinstance(iv.td, TSeqT):
+                        post.assume(iv.td.info.len(iv.z) >= 0)
+            else:
+                res.fresh = k.fresh_result
         if isinstance(res, SV):
             post.assume(*self.type_facts(res.z, td, post))
             if k.fresh_result and isinstance(td, TRefT):
